@@ -846,7 +846,11 @@ func (handler *Handler) QueryResponseHandler(ctx context.Context, packet *Packet
 					return err
 				}
 				output = append(output, fieldDataPacket)
-				if fieldDataPacket.IsEOF() {
+				// The rows end with an EOF_Packet or (CLIENT_DEPRECATE_EOF) an OK_Packet with the 0xfe header.
+				// IsEOF() also accepts the 0x00 form of OK_Packet, but a text row whose first column is an empty
+				// string starts with 0x00 as well: such a row ended the processing and it and all rows after it
+				// were sent to the client undecrypted.
+				if fieldDataPacket.isResultSetRowsEnd() {
 					dataLog.Debugln("Empty result set")
 					break
 				}
@@ -877,7 +881,12 @@ func (handler *Handler) QueryResponseHandler(ctx context.Context, packet *Packet
 			return err
 		}
 	}
-	handler.resetQueryHandler()
+	// The response handler was already reset at the top of this function and must NOT be reset again
+	// here: the answer has just been written to the client, which may already have sent its next
+	// command, and ProxyClientConnection (another goroutine) may already have installed the handler for
+	// that command (QueryResponseHandler / PreparedStatementResponseHandler).  Resetting it now drops
+	// that handler: the COM_STMT_PREPARE response is then not registered and every COM_STMT_EXECUTE of
+	// the statement is forwarded with plaintext parameters, a result set is forwarded undecrypted.
 	handler.logger.Debugln("Query handler finish")
 	return nil
 }
@@ -900,20 +909,23 @@ func (handler *Handler) PreparedStatementResponseHandler(ctx context.Context, pa
 	preparedStmt := NewPreparedStatement(response.StatementID, response.ParamsNum, queryObj.Query(), statement)
 	handler.registry.AddStatement(NewPreparedStatementItem(preparedStmt, nil))
 
-	// proxy output
-	handler.logger.Debugln("PreparedStatementResponseHandler.Proxy output")
-	if _, err := clientConnection.Write(packet.Dump()); err != nil {
-		handler.logger.WithError(err).WithField(logging.FieldKeyEventCode, logging.EventCodeErrorNetworkWrite).
-			Debugln("Can't proxy output")
-		return err
-	}
-
+	// choose the handler of the next database packet BEFORE the answer is written to the client: after the
+	// write the client may send its next command and ProxyClientConnection may install that command's
+	// handler, which must not be overwritten from this goroutine (see QueryResponseHandler)
 	handler.resetQueryHandler()
 	// if prams_num > 0 params definition block will follow
 	// https://dev.mysql.com/doc/internals/en/com-stmt-prepare-response.html
 	if response.ParamsNum > 0 {
 		fieldTracker := NewPreparedStatementFieldTracker(handler, response.ColumnsNum)
 		handler.setQueryHandler(fieldTracker.ParamsTrackHandler)
+	}
+
+	// proxy output
+	handler.logger.Debugln("PreparedStatementResponseHandler.Proxy output")
+	if _, err := clientConnection.Write(packet.Dump()); err != nil {
+		handler.logger.WithError(err).WithField(logging.FieldKeyEventCode, logging.EventCodeErrorNetworkWrite).
+			Debugln("Can't proxy output")
+		return err
 	}
 	handler.logger.Debugln("Prepared Statement registered successfully")
 	return nil
